@@ -253,6 +253,9 @@ G(name="cli_tunnel_tun", entry="h_tunnel_tun", defs=["STUB_TUNNEL=1"], enforce=[
   what="client tunnel_tun: while an upstream packet is in flight a packet read to drain the tun device leaves it untouched (position AND every data byte, ghost index) and sends nothing; otherwise exactly the bytes read are compressed, the packet gets zlib's length, fragment 0, offset 0, next sequence number, and its first fragment (DNS) or one raw frame is sent")
 G(name="common_recent_seqno", harness="h_common.c", entry="h_recent_seqno", enforce=["recent_seqno"], style="legacy", unwind=6, props={"C01": "all", "C05": "safety", "C06": "safety"}, min_obl=1, cost=2,
   what="recent_seqno for all 8 x 8 three-bit sequence numbers: 1 exactly for the current number and the three before it modulo 8 (the window that makes late copies of old fragments count as old)")
+G(name="cli_read_dns", entry="h_read_dns", defs=["STUB_READDNS=1"], enforce=["read_dns_withq"], loops="client.inv", loop_fns=["read_dns_withq"], props={"C06": "all", "C09": "all", "C01": "all"}, min_obl=30, cost=60,
+  **dict(CLI, unwind=4),
+  what="client read_dns_withq for every reply buffer of 2..capacity bytes (exact-size object), arbitrary datagram, decoder results per their contracts: result -1..buflen, nothing written outside the caller's buffer or the local datagram buffer; MX/SRV reassembly loop closed by a loop contract (parts decoded inside the answer text, decoded bytes never overtake the text); raw mode: only a successfully inflated packet reaches tun")
 
 LEVELS = {}
 TRUSTED_BASE = ["CBMC 6.11.0 (goto-cc front end, goto-instrument --dfcc contract instrumentation, symex)",
